@@ -12,7 +12,7 @@
    kept), 8 marshalled size <= maximum when it can hold the headers, 9 at most
    16384 metric blocks per report block. *)
 From IV Require Import Base.Word Model.Unwrapper Model.StreamLog Model.Rfc8888Recorder
-  Spec.Rfc8888Spec Proofs.StreamLogProofs Proofs.Rfc8888Proofs.
+  Spec.Rfc8888Spec Proofs.StreamLogProofs Proofs.Rfc8888Proofs Proofs.Rfc8888SpecProofs.
 
 (* MAIN THEOREM.  For every history of AddPacket / BuildReport / raw-budget
    builds over any number of SSRCs (any arrival and report clocks, any maximum
@@ -98,3 +98,20 @@ Theorem C08_budget_respected : forall atok s ref budget, 0 <= budget ->
   Z.of_nat (length (snd (snd (metrics_after atok s ref budget)))) <= budget.
 Proof. exact metrics_after_length. Qed.
 Print Assumptions C08_budget_respected.
+
+(* the boolean oracle of one report block (the one applied to the implementation's
+   reports) is equivalent to its Prop-level reading block_spec: contiguous range
+   ending at the highest received; no acknowledged packet re-covered; every entry is
+   what the recount of first copies expects; every first-time arrival is inside
+   unless the block is full / it lies below an earlier full report *)
+Theorem C08_oracle_block_iff : forall st now B begin mbs,
+  fst (o_report st now B begin mbs) = 0%nat <-> block_spec st now B begin mbs.
+Proof. exact o_report_ok_iff. Qed.
+Print Assumptions C08_oracle_block_iff.
+
+(* the expected entry is marked Received exactly if a copy of that number arrived *)
+Theorem C08_expected_received_iff : forall st now s,
+  (forall ts ecn, lfind s (o_arr st) = Some (ts, ecn) -> 0 <= ecn < 4) ->
+  (mbz_received (expected_mb st now s) = true <-> lfind s (o_arr st) <> None).
+Proof. exact expected_mb_received. Qed.
+Print Assumptions C08_expected_received_iff.
